@@ -504,8 +504,9 @@ def run_check(pid, tier, seed, workers=None):
         "coverage": cov, "assumptions": getattr(mod, "ASSUMPTIONS", []),
         "wall_s": round(wall, 2), "violations": len(unknown),
     }
-    os.makedirs(os.path.join(VERIF, "evidence"), exist_ok=True)
-    with open(os.path.join(VERIF, "evidence", pid + ".json"), "w") as f:
+    evdir = os.environ.get("VERIF_EVIDENCE_DIR") or os.path.join(VERIF, "evidence")  # override: mutant evaluation only
+    os.makedirs(evdir, exist_ok=True)
+    with open(os.path.join(evdir, pid + ".json"), "w") as f:
         json.dump(ev, f, indent=1, sort_keys=True)
     print("%s %s: evals=%d states=%d transitions=%d nontrivial=%d outcomes=%d viol=%d wall=%.1fs"
           % (pid, tier, tot["evals"], tot["states"], tot["trans"], tot["nontriv"],
